@@ -97,9 +97,14 @@ func (c LabelCheck) checkRecordingRule(entry discovery.Entry) (problems []Proble
 	val := entryLabels.GetValue(c.keyRe.original)
 	if val == nil || val.Value == "" {
 		if c.isRequired {
+			// Rule might have no labels of its own, only the ones set on the group.
+			labels := entry.Rule.RecordingRule.Labels
+			if labels == nil {
+				labels = &entryLabels
+			}
 			problems = append(problems, Problem{
 				Anchor:   AnchorAfter,
-				Lines:    entry.Rule.RecordingRule.Labels.Lines(),
+				Lines:    labels.Lines(),
 				Reporter: c.Reporter(),
 				Summary:  "required label not set",
 				Details:  maybeComment(c.comment),
@@ -107,9 +112,9 @@ func (c LabelCheck) checkRecordingRule(entry discovery.Entry) (problems []Proble
 				Diagnostics: []diags.Diagnostic{
 					{
 						Message:     fmt.Sprintf("`%s` label is required.", c.keyRe.original),
-						Pos:         entry.Rule.RecordingRule.Labels.Key.Pos,
+						Pos:         labels.Key.Pos,
 						FirstColumn: 1,
-						LastColumn:  len(entry.Rule.RecordingRule.Labels.Key.Value),
+						LastColumn:  len(labels.Key.Value),
 					},
 				},
 			})
